@@ -88,7 +88,7 @@ Proof.
     by (intros j q Hj Hq; destruct (Hd j q Hj Hq); auto).
   rewrite same_tags_refl, String.eqb_refl. cbn [andb orb].
   rewrite (find_idx_first _ (s_places s) 0%nat i p Hi A2).
-  - cbn [Nat.add]. rewrite (rfind_last _ (p_times p) k (SWindow ws we) Hk Hint Hlater). reflexivity.
+  - cbn [Nat.add]. rewrite (rfind_last (fun sp => span_intersects start sp (ts, Some te)) (p_times p) k (SWindow ws we) Hk Hint Hlater). reflexivity.
   - intros j q Hj Hq. apply (Hd j q); [lia|exact Hq].
 Qed.
 
@@ -178,3 +178,702 @@ Proof.
   split; [cbn; repeat constructor; cbn; intuition discriminate|]. split; [reflexivity|].
   split; [exact (proj2 earlier_place_taken)|]. cbn. lia.
 Qed.
+
+(* ==============================================================================================================
+   the time-intersection rule for both span kinds, vehicle-specific activities, read_init_solution's bookkeeping *)
+
+(* TimeSpan::intersects: inclusive on both ends, for a time window and for an offset interval counted from `start` *)
+Lemma span_intersects_spec start sp ts te :
+  span_intersects start sp (ts, Some te) = true <->
+  fst (to_window start sp) <= te /\ le_zo ts (snd (to_window start sp)) = true.
+Proof.
+  unfold span_intersects, intersects. cbn [fst snd le_zo]. rewrite andb_true_iff, Z.leb_le. tauto.
+Qed.
+
+Lemma span_intersects_kinds start ts te :
+  (forall ws we, span_intersects start (SWindow ws (Some we)) (ts, Some te) = true <-> ws <= te /\ ts <= we) /\
+  (forall ws, span_intersects start (SWindow ws None) (ts, Some te) = true <-> ws <= te) /\
+  (forall s e, span_intersects start (SOffset s e) (ts, Some te) = true <-> start + s <= te /\ ts <= start + e).
+Proof.
+  split; [|split]; intros; rewrite span_intersects_spec; cbn [to_window fst snd le_zo]; rewrite ?Z.leb_le; tauto.
+Qed.
+
+(* an activity that starts anywhere in the interval - at its first or at its LAST moment included - intersects it *)
+Lemma span_intersects_inside start sp ts te :
+  fst (to_window start sp) <= ts -> le_zo ts (snd (to_window start sp)) = true -> ts <= te ->
+  span_intersects start sp (ts, Some te) = true.
+Proof. intros H1 H2 H3. apply span_intersects_spec. split; [lia|exact H2]. Qed.
+
+Lemma find_idx_ext {A} (f g : A -> bool) l n : (forall a, In a l -> f a = g a) -> find_idx f l n = find_idx g l n.
+Proof.
+  revert n. induction l as [|x l IH]; intros n H; [reflexivity|]. cbn. rewrite (H x) by (left; reflexivity).
+  destruct (g x); [reflexivity|]. apply IH. intros a Ha. apply H. right. exact Ha.
+Qed.
+
+Lemma rfind_ext {A} (f g : A -> bool) l : (forall a, In a l -> f a = g a) -> rfind f l = rfind g l.
+Proof.
+  induction l as [|x l IH]; intros H; [reflexivity|]. cbn. rewrite IH by (intros a Ha; apply H; right; exact Ha).
+  rewrite (H x) by (left; reflexivity). reflexivity.
+Qed.
+
+Lemma existsb_ext_in {A} (f g : A -> bool) l : (forall a, In a l -> f a = g a) -> existsb f l = existsb g l.
+Proof.
+  induction l as [|x l IH]; intros H; [reflexivity|]. cbn. rewrite (H x) by (left; reflexivity).
+  rewrite IH by (intros a Ha; apply H; right; exact Ha). reflexivity.
+Qed.
+
+(* a span that is a time window does not depend on the instant offsets are counted from *)
+Lemma span_intersects_window st1 st2 sp w : is_offset sp = false -> span_intersects st1 sp w = span_intersects st2 sp w.
+Proof. destruct sp; cbn; [reflexivity|discriminate]. Qed.
+
+Definition place_no_offsets (p : place) : bool := forallb (fun sp => negb (is_offset sp)) (p_times p).
+
+Lemma accepts_start_irrel p loc st1 st2 w : place_no_offsets p = true -> accepts p loc st1 w = accepts p loc st2 w.
+Proof.
+  intros H. unfold accepts. f_equal. apply existsb_ext_in. intros sp Hsp. apply span_intersects_window.
+  unfold place_no_offsets in H. rewrite forallb_forall in H. specialize (H sp Hsp). destruct (is_offset sp); [discriminate|reflexivity].
+Qed.
+
+Lemma no_offsets_place s i p : no_offsets s = true -> nth_error (s_places s) i = Some p -> place_no_offsets p = true.
+Proof.
+  unfold no_offsets. rewrite forallb_forall. intros H Hi. apply H. eapply nth_error_In. exact Hi.
+Qed.
+
+Lemma get_job_tag_start_irrel s loc w st1 st2 : no_offsets s = true -> get_job_tag s loc w st1 = get_job_tag s loc w st2.
+Proof.
+  intros H. unfold get_job_tag. f_equal. induction (s_tags s) as [|[j t] l IH]; [reflexivity|]. cbn [find fst].
+  destruct (nth_error (s_places s) j) as [q|] eqn:Hq; [|exact IH].
+  rewrite (accepts_start_irrel q loc st1 st2 w (no_offsets_place s j q H Hq)). destruct (accepts q loc st2 w); [reflexivity|exact IH].
+Qed.
+
+Lemma match_place_start_irrel s b st1 st2 loc tm jid tag :
+  no_offsets s = true ->
+  match_place s b (mk_actx st1 loc tm jid tag) = match_place s b (mk_actx st2 loc tm jid tag).
+Proof.
+  intros H. unfold match_place, act_win. cbn [c_loc c_start c_time c_job_id c_tag].
+  rewrite (get_job_tag_start_irrel s loc (fst tm, Some (snd tm)) st1 st2 H).
+  destruct (same_tags _ tag && _); [|reflexivity].
+  rewrite (find_idx_ext (fun p => accepts p loc st1 (fst tm, Some (snd tm))) (fun p => accepts p loc st2 (fst tm, Some (snd tm)))).
+  2:{ intros p Hp. apply accepts_start_irrel. destruct (In_nth_error _ _ Hp) as (i & Hi). eapply no_offsets_place; eauto. }
+  destruct (find_idx _ (s_places s) 0%nat) as [[idx p]|] eqn:Hf; [|reflexivity].
+  assert (Hp : place_no_offsets p = true).
+  { clear -H Hf. assert (G : forall l n, find_idx (fun p0 => accepts p0 loc st2 (fst tm, Some (snd tm))) l n = Some (idx, p) -> In p l).
+    { induction l as [|x l IH]; intros n E; [discriminate|]. cbn in E. destruct (accepts x _ _ _); [inversion E; left; reflexivity|right; eapply IH; eauto]. }
+    apply G in Hf. destruct (In_nth_error _ _ Hf) as (i & Hi). eapply no_offsets_place; eauto. }
+  rewrite (rfind_ext (fun sp => span_intersects st1 sp (fst tm, Some (snd tm))) (fun sp => span_intersects st2 sp (fst tm, Some (snd tm)))).
+  2:{ intros sp Hsp. apply span_intersects_window. unfold place_no_offsets in Hp. rewrite forallb_forall in Hp.
+      specialize (Hp sp Hsp). destruct (is_offset sp); [discriminate|reflexivity]. }
+  reflexivity.
+Qed.
+
+(* match_place for any span kind (window / offset) and any activity kind (is_job_activity true / false) *)
+Lemma match_place_back_gen : forall s is_job i p k sp start loc ts te jid,
+  nth_error (s_places s) i = Some p -> loc_ok p loc = true ->
+  nth_error (p_times p) k = Some sp ->
+  le_zo (fst (to_window start sp)) (snd (to_window start sp)) = true ->
+  span_intersects start sp (ts, Some te) = true ->
+  (forall j q, j <> i -> nth_error (s_places s) j = Some q ->
+     accepts q loc start (to_window start sp) = false /\ accepts q loc start (ts, Some te) = false) ->
+  (forall k' sp', (k < k')%nat -> nth_error (p_times p) k' = Some sp' -> span_intersects start sp' (ts, Some te) = false) ->
+  (is_job = true -> jid = s_id s) ->
+  match_place s is_job (mk_actx start loc (ts, te) jid (get_job_tag s loc (to_window start sp) start)) =
+    Some (i, loc, p_dur p, rebuilt_win sp te (p_dur p)).
+Proof.
+  intros s is_job i p k sp start loc ts te jid Hi Hl Hk Hw Hint Hd Hlater Hid.
+  assert (A1 : accepts p loc start (to_window start sp) = true).
+  { eapply accepts_intro; eauto. apply intersects_refl. exact Hw. }
+  assert (A2 : accepts p loc start (ts, Some te) = true).
+  { eapply accepts_intro; eauto. }
+  unfold match_place, act_win. cbn [c_loc c_start c_time c_job_id c_tag fst snd].
+  rewrite (get_job_tag_stable s loc start (ts, Some te) (to_window start sp) i p Hi A2 A1)
+    by (intros j q Hj Hq; destruct (Hd j q Hj Hq); auto).
+  rewrite same_tags_refl.
+  assert (Hids : (String.eqb jid (s_id s) || negb is_job)%bool = true).
+  { destruct is_job; cbn; [rewrite (Hid eq_refl), String.eqb_refl; reflexivity|apply orb_true_r]. }
+  rewrite Hids. cbn [andb].
+  rewrite (find_idx_first _ (s_places s) 0%nat i p Hi A2).
+  - cbn [Nat.add]. rewrite (rfind_last (fun sp0 => span_intersects start sp0 (ts, Some te)) (p_times p) k sp Hk Hint Hlater).
+    destruct sp; reflexivity.
+  - intros j q Hj Hq. apply (Hd j q); [lia|exact Hq].
+Qed.
+
+Lemma le_zo_max a b c : le_zo a c = true -> le_zo b c = true -> le_zo (Z.max a b) c = true.
+Proof. destruct c as [c|]; cbn; [|reflexivity]. rewrite !Z.leb_le. lia. Qed.
+
+(* the service interval of a placed activity lies in its window: it may start at the first and at the last moment *)
+Lemma placed_service s start a i p k sp :
+  placed s start a i p k sp ->
+  fst (to_window start sp) <= sa_ts a /\ le_zo (sa_ts a) (snd (to_window start sp)) = true /\ sa_ts a <= sa_te a.
+Proof.
+  intros H. destruct H as [Hs Hpl Hloc Hdur Hnn Hsp Hwin Hwok Harr Hoth Hlat].
+  rewrite <- Hwin. unfold sa_te, sa_ts. split; [lia|]. split; [|lia].
+  apply le_zo_max; assumption.
+Qed.
+
+(* a placed activity, as the writer puts it into the document, is matched back to its own place by the reader *)
+Lemma match_place_written s start ws rs a i p k sp is_job jid :
+  placed s start a i p k sp -> starts_agree start ws rs s -> (is_job = true -> jid = s_id s) ->
+  match_place s is_job (mk_actx rs (sa_loc a) (sa_ts a, sa_te a) jid (get_job_tag s (sa_loc a) (sa_win a) ws)) =
+    Some (expected_place a i sp).
+Proof.
+  intros Hp Hs Hid.
+  assert (G : match_place s is_job (mk_actx start (sa_loc a) (sa_ts a, sa_te a) jid (get_job_tag s (sa_loc a) (sa_win a) start)) =
+              Some (expected_place a i sp)).
+  { destruct (placed_service _ _ _ _ _ _ _ Hp) as (S1 & S2 & S3).
+    destruct Hp as [Hsg Hpl Hloc Hdur Hnn Hsp Hwin Hwok Harr Hoth Hlat].
+    rewrite Hwin. unfold expected_place. rewrite <- Hdur.
+    apply (match_place_back_gen s is_job i p k sp start (sa_loc a) (sa_ts a) (sa_te a) jid); auto.
+    - rewrite <- Hwin. exact Hwok.
+    - apply span_intersects_inside; assumption.
+    - rewrite <- Hwin. exact Hoth. }
+  destruct Hs as [(-> & ->)|Hno]; [exact G|].
+  rewrite (get_job_tag_start_irrel s (sa_loc a) (sa_win a) ws start Hno).
+  rewrite (match_place_start_irrel s is_job rs start _ _ _ _ Hno). exact G.
+Qed.
+
+(* ---- the conditional jobs "<vehicle>_<type>_<shift>_<idx>" tried for a break / reload / recharge activity ---- *)
+From Coq Require Import DecimalString Decimal DecimalNat FinFun.
+
+Lemma append_inj_l (a x y : string) : (a ++ x = a ++ y)%string -> x = y.
+Proof. induction a as [|c a IH]; cbn; intros H; [exact H|]. injection H as H. auto. Qed.
+
+Lemma dec_nat_inj a b : dec_nat a = dec_nat b -> a = b.
+Proof.
+  unfold dec_nat. intros H. apply (f_equal NilEmpty.uint_of_string) in H.
+  rewrite !NilEmpty.usu in H. injection H as H. apply (f_equal Nat.of_uint) in H.
+  rewrite !DecimalNat.Unsigned.of_to in H. exact H.
+Qed.
+
+Lemma vjob_id_inj vid ty shift i j : vjob_id vid ty shift i = vjob_id vid ty shift j -> i = j.
+Proof.
+  unfold vjob_id. intros H. repeat (apply append_inj_l in H). apply dec_nat_inj. exact H.
+Qed.
+
+Lemma lookup_in ix k j : lookup ix k = Some j -> In k (map fst ix).
+Proof.
+  induction ix as [|[k' j'] ix IH]; cbn; [discriminate|]. destruct (String.eqb k k') eqn:E.
+  - intros _. left. symmetry. apply String.eqb_eq. exact E.
+  - intros H. right. auto.
+Qed.
+
+(* the index knows at least as many keys as there are conditional jobs in a row: the fuel of vcands is enough *)
+Lemma vkeys_bound ix vid ty shift (ss : list single) :
+  (forall j s, nth_error ss j = Some s -> lookup ix (vjob_id vid ty shift (S j)) = Some (JSingle s)) ->
+  (List.length ss <= List.length ix)%nat.
+Proof.
+  intros H. set (keys := map (fun j => vjob_id vid ty shift (S j)) (seq 0 (List.length ss))).
+  assert (Hnd : NoDup keys).
+  { apply Injective_map_NoDup; [|apply seq_NoDup]. intros a b E. apply vjob_id_inj in E. lia. }
+  assert (Hincl : incl keys (map fst ix)).
+  { intros k Hk. apply in_map_iff in Hk. destruct Hk as (j & <- & Hj). apply in_seq in Hj.
+    destruct (nth_error ss j) as [s|] eqn:E; [|apply nth_error_None in E; lia].
+    eapply lookup_in. apply (H j s E). }
+  pose proof (NoDup_incl_length Hnd Hincl) as L. unfold keys in L. rewrite map_length, seq_length, map_length in L. exact L.
+Qed.
+
+Lemma vcands_nth ix vid ty shift : forall (ss : list single) idx fuel,
+  (List.length ss <= fuel)%nat ->
+  (forall j s, nth_error ss j = Some s -> lookup ix (vjob_id vid ty shift (idx + j)) = Some (JSingle s)) ->
+  forall j s, nth_error ss j = Some s ->
+    nth_error (vcands ix vid ty shift idx fuel) j = Some (vjob_id vid ty shift (idx + j), s).
+Proof.
+  induction ss as [|s0 ss IH]; intros idx fuel Hf Hl j s Hj; [destruct j; discriminate|].
+  destruct fuel as [|f]; [cbn in Hf; lia|]. cbn [vcands].
+  pose proof (Hl 0%nat s0 eq_refl) as H0. rewrite Nat.add_0_r in H0. rewrite H0.
+  destruct j as [|j]; cbn in Hj.
+  - inversion Hj; subst. cbn. rewrite Nat.add_0_r. reflexivity.
+  - cbn [nth_error]. rewrite (IH (S idx) f) with (s := s) (j := j); [f_equal; f_equal; f_equal; lia| cbn in Hf; lia | | exact Hj].
+    intros j' s' Hj'. replace (S idx + j')%nat with (idx + S j')%nat by lia. apply (Hl (S j') s'). exact Hj'.
+Qed.
+
+Lemma first_vmatch_at : forall cs c n key s m,
+  nth_error cs n = Some (key, s) -> match_place s false c = Some m ->
+  (forall j k' s', (j < n)%nat -> nth_error cs j = Some (k', s') -> match_place s' false c = None) ->
+  first_vmatch cs c = Some (key, m).
+Proof.
+  induction cs as [|[k0 s0] cs IH]; intros c n key s m Hn Hm Hlt; [destruct n; discriminate|].
+  destruct n as [|n]; cbn in Hn.
+  - inversion Hn; subst. cbn. rewrite Hm. reflexivity.
+  - cbn. rewrite (Hlt 0%nat k0 s0) by (cbn; auto; lia).
+    apply (IH c n key s m Hn Hm). intros j k' s' Hj Hs'. apply (Hlt (S j) k' s'); [lia|exact Hs'].
+Qed.
+
+(* the n-th conditional job (n = length ss >= 1) is found when the n-1 before it do not match the activity *)
+Lemma try_match_vehicle_job_at ix vid ty shift (ss : list single) s c m :
+  (forall j s', nth_error ss j = Some s' -> lookup ix (vjob_id vid ty shift (S j)) = Some (JSingle s')) ->
+  nth_error ss (Nat.pred (List.length ss)) = Some s ->
+  (forall j s', (S j < List.length ss)%nat -> nth_error ss j = Some s' -> match_place s' false c = None) ->
+  match_place s false c = Some m ->
+  try_match_vehicle_job ix vid ty shift c = Some (vjob_id vid ty shift (List.length ss), m).
+Proof.
+  intros Hl Hn Hearlier Hm. unfold try_match_vehicle_job.
+  assert (Hpos : (0 < List.length ss)%nat).
+  { destruct ss; [discriminate|cbn; lia]. }
+  pose proof (vkeys_bound ix vid ty shift ss Hl) as Hb.
+  assert (Hnth : forall j s', nth_error ss j = Some s' ->
+            nth_error (vcands ix vid ty shift 1%nat (S (List.length ix))) j = Some (vjob_id vid ty shift (1 + j), s')).
+  { apply vcands_nth; [lia|]. intros j s' Hj. apply Hl. exact Hj. }
+  replace (List.length ss) with (1 + Nat.pred (List.length ss))%nat at 1 by lia.
+  eapply first_vmatch_at; [apply Hnth; exact Hn|exact Hm|].
+  intros j k' s' Hj Hc. destruct (nth_error ss j) as [s''|] eqn:E; [|apply nth_error_None in E; lia].
+  rewrite (Hnth j s'' E) in Hc. inversion Hc; subst. apply (Hearlier j s'); [lia|exact E].
+Qed.
+
+(* ---- the dispatch of try_match_point_job on a well written activity ---- *)
+Lemma write_act_ctx ws rs a :
+  w_ctx (write_act ws rs a) =
+  mk_actx rs (sa_loc a) (sa_ts a, sa_te a) (match sa_vtype a with Some ty => ty | None => sa_key a end)
+          (get_job_tag (sa_single a) (sa_loc a) (sa_win a) ws).
+Proof. reflexivity. Qed.
+
+Lemma vehicle_type_flags ty : In ty ["break"; "reload"; "recharge"]%string ->
+  is_terminal ty = false /\ is_customer ty = false /\ is_vehicle_specific ty = true.
+Proof. intros [<-|[<-|[<-|[]]]]; repeat split; reflexivity. Qed.
+
+Lemma try_match_written ix vid shift start ws rs a i sp :
+  well_written ix vid shift start ws rs a i sp ->
+  try_match_point_job ix vid shift (write_act ws rs a) =
+    inr (MJob (sa_key a) (is_single_key ix (sa_key a)) (sa_sub a) (expected_place a i sp)).
+Proof.
+  intros [s p k Hv Hc Ht Hl Hid Hsub Hp Hs | ss s p k Hv Hc Ht Hl Hlen Hn Hid Hearlier Hp Hs
+          | ty ss s p k Hv Hty Hin Hsub Hl Hn Hkey Hearlier Hp Hs].
+  - (* customer, single job *)
+    unfold try_match_point_job. rewrite write_act_ctx. cbn [w_type write_act c_job_id]. rewrite Ht, Hc, Hv, Hl.
+    unfold is_single_key. rewrite Hl. cbn [first_match].
+    rewrite (pl_single _ _ _ _ _ _ _ Hp).
+    rewrite (match_place_written s start ws rs a i p k sp true (sa_key a) Hp Hs) by (intros _; symmetry; exact Hid).
+    rewrite Hsub. reflexivity.
+  - (* customer, sub-job of a multi job *)
+    unfold try_match_point_job. rewrite write_act_ctx. cbn [w_type write_act c_job_id]. rewrite Ht, Hc, Hv, Hl.
+    unfold is_single_key. rewrite Hl.
+    destruct (Nat.ltb_spec (List.length (dedup_s (flat_map (fun s0 => map snd (s_tags s0)) ss))) (List.length ss)) as [Hlt|_]; [lia|].
+    rewrite (first_match_at ss _ 0%nat (sa_sub a) s (expected_place a i sp) Hn).
+    + reflexivity.
+    + rewrite (pl_single _ _ _ _ _ _ _ Hp).
+      apply (match_place_written s start ws rs a i p k sp true (sa_key a) Hp Hs). intros _. symmetry. exact Hid.
+    + intros j s' Hj Hs'. specialize (Hearlier j s' Hj Hs'). rewrite write_act_ctx, Hv in Hearlier. exact Hearlier.
+  - (* break / reload / recharge *)
+    destruct (vehicle_type_flags ty Hin) as (F1 & F2 & F3).
+    unfold try_match_point_job. cbn [w_type write_act]. rewrite Hty, F1, F2, F3.
+    assert (Hm : match_place s false (w_ctx (write_act ws rs a)) = Some (expected_place a i sp)).
+    { rewrite write_act_ctx, Hv, (pl_single _ _ _ _ _ _ _ Hp).
+      apply (match_place_written s start ws rs a i p k sp false ty Hp Hs). discriminate. }
+    change (mk_actx rs (sa_loc a) (sa_ts a, sa_te a) (match sa_vtype a with Some ty0 => ty0 | None => sa_key a end)
+              (get_job_tag (sa_single a) (sa_loc a) (sa_win a) ws)) with (w_ctx (write_act ws rs a)).
+    rewrite (try_match_vehicle_job_at ix vid ty shift ss s _ _ Hl Hn Hearlier Hm).
+    unfold is_single_key. rewrite Hkey.
+    assert (Hpos : (0 < List.length ss)%nat) by (destruct ss; [discriminate|cbn; lia]).
+    pose proof (Hl (Nat.pred (List.length ss)) s Hn) as Hk. replace (S (Nat.pred (List.length ss))) with (List.length ss) in Hk by lia.
+    rewrite Hk, Hsub. reflexivity.
+Qed.
+
+(* ---- try_insert_activity over a tour, read_init_solution over the document ---- *)
+Local Open Scope list_scope.
+
+Lemma str_in_true x l : str_in x l = true <-> In x l.
+Proof.
+  unfold str_in. rewrite existsb_exists. split.
+  - intros (y & Hy & E). apply String.eqb_eq in E. subst. exact Hy.
+  - intros H. exists x. split; [exact H|apply String.eqb_refl].
+Qed.
+Lemma str_in_false x l : str_in x l = false <-> ~ In x l.
+Proof. rewrite <- str_in_true. destruct (str_in x l); split; intros H; try congruence; try (exfalso; apply H; reflexivity). Qed.
+
+Lemma read_acts_written ix vid shift start rs : forall items ws prev added,
+  tour_ok ix vid shift start rs ws prev items ->
+  NoDup (single_keys ix items) ->
+  (forall k, In k (single_keys ix items) -> ~ In k added) ->
+  read_acts ix vid shift (write_acts rs ws prev (map item_act items)) added =
+    inr (map item_ract items, List.rev (tour_keys items) ++ added).
+Proof.
+  induction items as [|[[a i] sp] items IH]; intros ws prev added Hok Hnd Hfresh; [reflexivity|].
+  inversion Hok as [|ws0 prev0 a0 i0 sp0 rest Hww Hrest]; subst.
+  cbn [map item_act fst write_acts]. set (ws' := if is_reload a then prev else ws) in *.
+  cbn [read_acts]. cbn [w_commute w_transit write_act].
+  change (mk_wact (sa_type a) false false _) with (write_act ws' rs a).
+  rewrite (try_match_written ix vid shift start ws' rs a i sp Hww).
+  unfold single_keys, tour_keys in Hnd, Hfresh. cbn [map filter item_act fst] in Hnd, Hfresh.
+  destruct (is_single_key ix (sa_key a)) eqn:Hsg.
+  - (* a Job::Single: must not have been added before *)
+    assert (Hna : str_in (sa_key a) added = false).
+    { apply str_in_false. apply Hfresh. left. reflexivity. }
+    rewrite Hna. cbn [andb]. inversion Hnd as [|x l Hnin Hnd']; subst.
+    rewrite (IH ws' (sa_te a) (sa_key a :: added) Hrest Hnd').
+    + cbn [map]. unfold item_ract at 1. cbn [fst snd]. unfold expected_ract. rewrite write_act_ctx. cbn [c_time].
+      f_equal. f_equal. unfold tour_keys. cbn [map List.rev item_act fst]. rewrite <- app_assoc. reflexivity.
+    + intros k Hk [<-|Hin]; [exact (Hnin Hk)|]. apply (Hfresh k); [right; exact Hk|exact Hin].
+  - cbn [andb].
+    rewrite (IH ws' (sa_te a) (sa_key a :: added) Hrest Hnd).
+    + cbn [map]. unfold item_ract at 1. cbn [fst snd]. unfold expected_ract. rewrite write_act_ctx. cbn [c_time].
+      f_equal. f_equal. unfold tour_keys. cbn [map List.rev item_act fst]. rewrite <- app_assoc. reflexivity.
+    + intros k Hk [<-|Hin].
+      * apply filter_In in Hk. destruct Hk as (_ & Hk). congruence.
+      * apply (Hfresh k); [exact Hk|exact Hin].
+Qed.
+
+Lemma read_acts_terminals ix vid shift l added : terminals l -> read_acts ix vid shift l added = inr ([], added).
+Proof.
+  induction 1 as [|a l (Ht & Hc & Htr) _ IH]; [reflexivity|]. cbn [read_acts]. rewrite Hc, Htr.
+  unfold try_match_point_job. rewrite Ht. exact IH.
+Qed.
+
+Lemma read_acts_app ix vid shift : forall l1 l2 added,
+  read_acts ix vid shift (l1 ++ l2) added =
+  match read_acts ix vid shift l1 added with
+  | inl e => inl e
+  | inr (r1, added1) => match read_acts ix vid shift l2 added1 with
+                        | inl e => inl e
+                        | inr (r2, added2) => inr (r1 ++ r2, added2)
+                        end
+  end.
+Proof.
+  induction l1 as [|a l1 IH]; intros l2 added.
+  - cbn. destruct (read_acts ix vid shift l2 added) as [e|[r2 a2]]; reflexivity.
+  - rewrite <- app_comm_cons. cbn [read_acts]. destruct (w_commute a); [reflexivity|]. destruct (w_transit a); [reflexivity|].
+    destruct (try_match_point_job ix vid shift a) as [e|[|key sg sub m]]; [reflexivity|apply IH|].
+    destruct (sg && str_in key added); [reflexivity|]. rewrite IH.
+    destruct (read_acts ix vid shift l1 (key :: added)) as [e|[r1 a1]]; [reflexivity|].
+    destruct (read_acts ix vid shift l2 a1) as [e|[r2 a2]]; reflexivity.
+Qed.
+
+Lemma tour_keys_app l1 l2 : tour_keys (l1 ++ l2) = tour_keys l1 ++ tour_keys l2.
+Proof. unfold tour_keys. apply map_app. Qed.
+Lemma single_keys_app ix l1 l2 : single_keys ix (l1 ++ l2) = single_keys ix l1 ++ single_keys ix l2.
+Proof. unfold single_keys. rewrite tour_keys_app. apply filter_app. Qed.
+
+Lemma nodup_app_l {A} (l1 l2 : list A) : NoDup (l1 ++ l2) -> NoDup l1.
+Proof. induction l1 as [|a l1 IH]; cbn; intros H; [constructor|]. inversion H; subst. constructor; [intros Hin; apply H2; apply in_or_app; auto|auto]. Qed.
+Lemma nodup_app_r {A} (l1 l2 : list A) : NoDup (l1 ++ l2) -> NoDup l2.
+Proof. induction l1 as [|a l1 IH]; cbn; intros H; [exact H|]. inversion H; subst. auto. Qed.
+Lemma nodup_app_disj {A} (l1 l2 : list A) x : NoDup (l1 ++ l2) -> In x l1 -> In x l2 -> False.
+Proof.
+  induction l1 as [|a l1 IH]; cbn; intros H H1 H2; [contradiction|]. inversion H; subst. destruct H1 as [<-|H1].
+  - apply H4. apply in_or_app. auto.
+  - eauto.
+Qed.
+
+Lemma read_tour_written ix actors t added :
+  stour_ok ix actors t ->
+  NoDup (single_keys ix (st_items t)) ->
+  (forall k, In k (single_keys ix (st_items t)) -> ~ In k added) ->
+  read_acts ix (st_vid t) (st_shift t) (t_acts (doc_tour t)) added =
+    inr (map item_ract (st_items t), List.rev (tour_keys (st_items t)) ++ added).
+Proof.
+  intros (_ & Hpre & Hpost & Hok) Hnd Hfresh. unfold doc_tour. cbn [t_acts].
+  rewrite read_acts_app, (read_acts_terminals _ _ _ _ _ Hpre), read_acts_app.
+  unfold write_tour, st_acts in *. rewrite (read_acts_written ix _ _ _ _ _ _ _ added Hok Hnd Hfresh).
+  rewrite (read_acts_terminals _ _ _ _ _ Hpost). cbn [app]. rewrite app_nil_r. reflexivity.
+Qed.
+
+Lemma read_tours_written ix actors : forall tours added,
+  Forall (stour_ok ix actors) tours ->
+  NoDup (single_keys ix (all_items tours)) ->
+  (forall k, In k (single_keys ix (all_items tours)) -> ~ In k added) ->
+  read_tours ix actors (map doc_tour tours) added =
+    inr (map expected_route tours, List.rev (tour_keys (all_items tours)) ++ added).
+Proof.
+  induction tours as [|t tours IH]; intros added Hok Hnd Hfresh; [reflexivity|].
+  inversion Hok as [|t0 l Ht Hrest]; subst. unfold all_items in *. cbn [flat_map] in *.
+  rewrite single_keys_app in Hnd, Hfresh.
+  cbn [map read_tours]. cbn [t_vid t_type t_shift doc_tour].
+  destruct Ht as (Hactor & Ht'). rewrite Hactor. cbn [negb].
+  change (st_pre t ++ write_tour (st_start t) (st_start_loc t) (st_acts t) ++ st_post t) with (t_acts (doc_tour t)).
+  rewrite (read_tour_written ix actors t added (conj Hactor Ht') (nodup_app_l _ _ Hnd)).
+  2:{ intros k Hk. apply Hfresh. apply in_or_app. auto. }
+  rewrite (IH (List.rev (tour_keys (st_items t)) ++ added) Hrest (nodup_app_r _ _ Hnd)).
+  - unfold expected_route at 1. rewrite tour_keys_app, rev_app_distr, <- app_assoc. reflexivity.
+  - intros k Hk Hin. apply in_app_or in Hin. destruct Hin as [Hin|Hin].
+    + apply in_rev in Hin. destruct (is_single_key ix k) eqn:E.
+      * apply (nodup_app_disj _ _ k Hnd); [|exact Hk]. unfold single_keys. apply filter_In. auto.
+      * unfold single_keys in Hk. apply filter_In in Hk. destruct Hk. congruence.
+    + apply (Hfresh k); [apply in_or_app; auto|exact Hin].
+Qed.
+
+Lemma read_unassigned_ok ix : forall us added,
+  Forall (fun k => lookup ix k <> None) us ->
+  read_unassigned ix (map (fun k => (k, true)) us) added = inr (us, List.rev us ++ added).
+Proof.
+  induction us as [|k us IH]; intros added H; [reflexivity|]. inversion H; subst. cbn [map read_unassigned].
+  destruct (lookup ix k); [|congruence]. cbn [negb]. rewrite (IH (k :: added)) by assumption.
+  cbn [List.rev]. rewrite <- app_assoc. reflexivity.
+Qed.
+
+(* the whole document: the routes are the solver's tours, the unassigned jobs are the listed ones plus every job of the
+   problem that is neither served nor listed *)
+Lemma read_init_written ix actors all_jobs tours us :
+  Forall (stour_ok ix actors) tours ->
+  NoDup (single_keys ix (all_items tours)) ->
+  Forall (fun k => lookup ix k <> None) us ->
+  read_init ix actors all_jobs (map doc_tour tours) (map (fun k => (k, true)) us) =
+    ROk (map expected_route tours)
+        (us ++ filter (fun k => negb (str_in k (List.rev us ++ List.rev (tour_keys (all_items tours)) ++ []))) all_jobs).
+Proof.
+  intros Hok Hnd Hus. unfold read_init.
+  rewrite (read_tours_written ix actors tours [] Hok Hnd) by (intros k _ []).
+  rewrite (read_unassigned_ok ix us _ Hus). reflexivity.
+Qed.
+
+Lemma read_init_unassigned_set ix actors all_jobs tours us routes un :
+  read_init ix actors all_jobs (map doc_tour tours) (map (fun k => (k, true)) us) = ROk routes un ->
+  Forall (stour_ok ix actors) tours -> NoDup (single_keys ix (all_items tours)) -> Forall (fun k => lookup ix k <> None) us ->
+  routes = map expected_route tours /\
+  forall k, In k un <-> In k us \/ (In k all_jobs /\ ~ In k us /\ ~ In k (tour_keys (all_items tours))).
+Proof.
+  intros E Hok Hnd Hus. rewrite (read_init_written ix actors all_jobs tours us Hok Hnd Hus) in E. inversion E; subst. split; [reflexivity|].
+  intros k. rewrite in_app_iff, filter_In, negb_true_iff, str_in_false, !in_app_iff, <- !in_rev. cbn [In]. tauto.
+Qed.
+
+(* the solver's partition of the jobs (served / unassigned) is what the reader reconstructs *)
+Lemma read_init_same_unassigned ix actors all_jobs tours us routes un (U : list string) :
+  read_init ix actors all_jobs (map doc_tour tours) (map (fun k => (k, true)) us) = ROk routes un ->
+  Forall (stour_ok ix actors) tours -> NoDup (single_keys ix (all_items tours)) -> Forall (fun k => lookup ix k <> None) us ->
+  (forall k, In k all_jobs <-> In k (tour_keys (all_items tours)) \/ In k U) ->
+  (forall k, In k U -> ~ In k (tour_keys (all_items tours))) ->
+  incl us U ->
+  routes = map expected_route tours /\ forall k, In k un <-> In k U.
+Proof.
+  intros E Hok Hnd Hus Hall Hdisj Hincl.
+  destruct (read_init_unassigned_set ix actors all_jobs tours us routes un E Hok Hnd Hus) as (-> & Hun). split; [reflexivity|].
+  intros k. rewrite Hun. split.
+  - intros [H|(Ha & Hnu & Hns)]; [apply Hincl; exact H|]. apply Hall in Ha. tauto.
+  - intros HU. destruct (in_dec string_dec k us) as [Hi|Hn]; [left; exact Hi|right].
+    split; [apply Hall; auto|]. split; [exact Hn|apply Hdisj; exact HU].
+Qed.
+
+(* two ways a candidate tried before the activity's own job is told apart *)
+Lemma match_place_other_tag_any : forall s b c,
+  same_tags (get_job_tag s (c_loc c) (act_win c) (c_start c)) (c_tag c) = false -> match_place s b c = None.
+Proof. intros s b c H. unfold match_place. rewrite H. reflexivity. Qed.
+
+Lemma find_idx_none {A} (f : A -> bool) l n : (forall a, In a l -> f a = false) -> find_idx f l n = None.
+Proof.
+  revert n. induction l as [|x l IH]; intros n H; [reflexivity|]. cbn. rewrite (H x) by (left; reflexivity).
+  apply IH. intros a Ha. apply H. right. exact Ha.
+Qed.
+
+Lemma match_place_no_place : forall s b c,
+  (forall p, In p (s_places s) -> accepts p (c_loc c) (c_start c) (act_win c) = false) -> match_place s b c = None.
+Proof.
+  intros s b c H. unfold match_place. destruct (same_tags _ _ && _); [|reflexivity].
+  rewrite (find_idx_none _ _ _ H). reflexivity.
+Qed.
+
+(* ---- witnesses ---- *)
+Ltac solve_placed :=
+  constructor; cbn;
+  [ reflexivity | reflexivity | reflexivity | reflexivity | lia | reflexivity | reflexivity | reflexivity | reflexivity
+  | intros j q Hj Hq; destruct j as [|j]; [congruence|destruct j; discriminate]
+  | intros k' sp' Hk Hq; destruct k' as [|k']; [lia|destruct k'; discriminate] ].
+
+Definition wdep (t : Z) : wact := mk_wact "departure" false false (mk_actx t 0 (t, t) "departure" None).
+Definition warr (t0 t : Z) : wact := mk_wact "arrival" false false (mk_actx t0 0 (t, t) "arrival" None).
+Lemma terminals_dep t : terminals [wdep t].
+Proof. repeat constructor. Qed.
+Lemma terminals_arr t0 t : terminals [warr t0 t].
+Proof. repeat constructor. Qed.
+
+(* (1) the boundary case: job1 is reached at the last second of its window [0,9]; the optional break with the offset
+   interval [5,10] starts at 10 = departure + latest offset; job3 is unassigned.  Everything is read back. *)
+Definition bd_j1 := mk_single "job1" [mk_place (Some 1) 1 [SWindow 0 (Some 9)]] [].
+Definition bd_j2 := mk_single "job2" [mk_place (Some 2) 1 [SWindow 0 None]] [].
+Definition bd_j3 := mk_single "job3" [mk_place (Some 3) 1 [SWindow 0 (Some 5)]] [].
+Definition bd_br := mk_single "v1_break_0_1" [mk_place None 2 [SOffset 5 10]] [].
+Definition bd_ix : job_index :=
+  [("job1", JSingle bd_j1); ("job2", JSingle bd_j2); ("job3", JSingle bd_j3); ("v1_break_0_1", JSingle bd_br)].
+Definition bd_a1 := mk_sact "job1" None "delivery" 0 bd_j1 1 (0, Some 9) 9 1.
+Definition bd_a2 := mk_sact "v1_break_0_1" (Some "break") "break" 0 bd_br 1 (5, Some 10) 10 2.
+Definition bd_a3 := mk_sact "job2" None "delivery" 0 bd_j2 2 (0, None) 23 1.
+Definition bd_tour : stour :=
+  mk_stour "v1" "type1" 0 0 0 [(bd_a1, 0%nat, SWindow 0 (Some 9)); (bd_a2, 0%nat, SOffset 5 10); (bd_a3, 0%nat, SWindow 0 None)]
+           [wdep 0] [warr 0 44].
+Definition bd_actors : list actor_key := [("v1", "type1", 0%nat)].
+
+Lemma bd_tour_ok : stour_ok bd_ix bd_actors bd_tour.
+Proof.
+  split; [reflexivity|]. split; [apply terminals_dep|]. split; [apply terminals_arr|].
+  cbn [bd_tour st_vid st_shift st_start st_start_loc st_items st_acts map item_act fst].
+  change (doc_route_start 0 0 [bd_a1; bd_a2; bd_a3]) with 0.
+  apply tok_cons.
+  { apply (ww_single _ _ _ _ _ _ _ _ _ bd_j1 (mk_place (Some 1) 1 [SWindow 0 (Some 9)]) 0%nat); try reflexivity.
+    - solve_placed.
+    - left. split; reflexivity. }
+  apply tok_cons.
+  { apply (ww_vehicle _ _ _ _ _ _ _ _ _ "break" [bd_br] bd_br (mk_place None 2 [SOffset 5 10]) 0%nat); try reflexivity.
+    - cbn. auto.
+    - intros j s' Hj. destruct j as [|j]; [inversion Hj; reflexivity|destruct j; discriminate].
+    - intros j s' Hj. cbn in Hj. lia.
+    - solve_placed.
+    - left. split; reflexivity. }
+  apply tok_cons.
+  { apply (ww_single _ _ _ _ _ _ _ _ _ bd_j2 (mk_place (Some 2) 1 [SWindow 0 None]) 0%nat); try reflexivity.
+    - solve_placed.
+    - left. split; reflexivity. }
+  apply tok_nil.
+Qed.
+
+Lemma boundary_nonvacuous :
+  stour_ok bd_ix bd_actors bd_tour /\
+  sa_ts bd_a1 = 9 /\ sa_ts bd_a2 = 0 + 10 /\
+  read_init bd_ix bd_actors ["job1"; "job2"; "job3"; "v1_break_0_1"] [doc_tour bd_tour] [("job3", true)] =
+    ROk [expected_route bd_tour] ["job3"].
+Proof. split; [exact bd_tour_ok|]. repeat split; vm_compute; reflexivity. Qed.
+
+(* (2) finding C11-F6: job1 is served at the start location for 60 s right after departure; the writer merges it into the
+   departure stop, whose `departure` becomes 60; the reader counts the break's offsets [70,100] from 60 *)
+Definition f6_j1 := mk_single "job1" [mk_place (Some 0) 60 [SWindow 0 (Some 0)]] [].
+Definition f6_j2 := mk_single "job2" [mk_place (Some 1) 1 [SWindow 0 None]] [].
+Definition f6_br := mk_single "v1_break_0_1" [mk_place None 2 [SOffset 70 100]] [].
+Definition f6_ix : job_index := [("job1", JSingle f6_j1); ("job2", JSingle f6_j2); ("v1_break_0_1", JSingle f6_br)].
+Definition f6_a1 := mk_sact "job1" None "delivery" 0 f6_j1 0 (0, Some 0) 0 60.
+Definition f6_a2 := mk_sact "job2" None "delivery" 0 f6_j2 1 (0, None) 80 1.
+Definition f6_a3 := mk_sact "v1_break_0_1" (Some "break") "break" 0 f6_br 1 (70, Some 100) 81 2.
+Definition f6_items := [(f6_a1, 0%nat, SWindow 0 (Some 0)); (f6_a2, 0%nat, SWindow 0 None); (f6_a3, 0%nat, SOffset 70 100)].
+Definition f6_tour : stour := mk_stour "v1" "type1" 0 0 0 f6_items [wdep 0] [warr 60 103].
+
+Lemma f6_well_written : Forall (fun it => well_written f6_ix "v1" 0 0 0 0 (item_act it) (snd (fst it)) (snd it)) f6_items.
+Proof.
+  repeat apply Forall_cons; [| | |apply Forall_nil]; cbn [item_act fst snd].
+  - apply (ww_single _ _ _ _ _ _ _ _ _ f6_j1 (mk_place (Some 0) 60 [SWindow 0 (Some 0)]) 0%nat); try reflexivity.
+    + solve_placed.
+    + left. split; reflexivity.
+  - apply (ww_single _ _ _ _ _ _ _ _ _ f6_j2 (mk_place (Some 1) 1 [SWindow 0 None]) 0%nat); try reflexivity.
+    + solve_placed.
+    + left. split; reflexivity.
+  - apply (ww_vehicle _ _ _ _ _ _ _ _ _ "break" [f6_br] f6_br (mk_place None 2 [SOffset 70 100]) 0%nat); try reflexivity.
+    + cbn. auto.
+    + intros j s' Hj. destruct j as [|j]; [inversion Hj; reflexivity|destruct j; discriminate].
+    + intros j s' Hj. cbn in Hj. lia.
+    + solve_placed.
+    + left. split; reflexivity.
+Qed.
+
+Lemma merged_departure_stop_refuted :
+  exists ix actors all_jobs t,
+    Forall (fun it => well_written ix (st_vid t) (st_shift t) (st_start t) (st_start t) (st_start t)
+                                   (item_act it) (snd (fst it)) (snd it)) (st_items t) /\
+    NoDup (single_keys ix (st_items t)) /\ terminals (st_pre t) /\ terminals (st_post t) /\
+    (forall a, In a (st_acts t) -> is_reload a = false) /\
+    doc_route_start (st_start t) (st_start_loc t) (st_acts t) <> st_start t /\
+    read_init ix actors all_jobs [doc_tour t] [] = RErr ECannotMatchVehicle.
+Proof.
+  exists f6_ix, bd_actors, ["job1"; "job2"; "v1_break_0_1"], f6_tour.
+  split; [exact f6_well_written|]. split; [vm_compute; repeat constructor; cbn; intuition discriminate|].
+  split; [apply terminals_dep|]. split; [apply terminals_arr|].
+  split; [intros a [<-|[<-|[<-|[]]]]; reflexivity|]. split; [vm_compute; discriminate|]. vm_compute. reflexivity.
+Qed.
+
+(* (3) finding C11-F7: the tagged break with the offset interval [45,50] is taken at 47 after a reload; the writer looks the
+   tag up with the departure of the activity before the reload (11), finds no fitting place and writes no tag *)
+Definition f7_j1 := mk_single "job1" [mk_place (Some 1) 1 [SWindow 0 None]] [].
+Definition f7_j2 := mk_single "job2" [mk_place (Some 2) 1 [SWindow 0 (Some 46)]] [].
+Definition f7_rl := mk_single "v1_reload_0_1" [mk_place (Some 0) 5 [SWindow 0 None]] [].
+Definition f7_br := mk_single "v1_break_0_1" [mk_place None 2 [SOffset 45 50]] [(0%nat, "lunch")].
+Definition f7_ix : job_index :=
+  [("job1", JSingle f7_j1); ("job2", JSingle f7_j2); ("v1_reload_0_1", JSingle f7_rl); ("v1_break_0_1", JSingle f7_br)].
+Definition f7_a1 := mk_sact "job1" None "delivery" 0 f7_j1 1 (0, None) 10 1.
+Definition f7_a2 := mk_sact "v1_reload_0_1" (Some "reload") "reload" 0 f7_rl 0 (0, None) 21 5.
+Definition f7_a3 := mk_sact "job2" None "delivery" 0 f7_j2 2 (0, Some 46) 46 1.
+Definition f7_a4 := mk_sact "v1_break_0_1" (Some "break") "break" 0 f7_br 2 (45, Some 50) 47 2.
+Definition f7_items := [(f7_a1, 0%nat, SWindow 0 None); (f7_a2, 0%nat, SWindow 0 None); (f7_a3, 0%nat, SWindow 0 (Some 46));
+                        (f7_a4, 0%nat, SOffset 45 50)].
+Definition f7_tour : stour := mk_stour "v1" "type1" 0 0 0 f7_items [wdep 0] [warr 0 69].
+
+Lemma f7_well_written : Forall (fun it => well_written f7_ix "v1" 0 0 0 0 (item_act it) (snd (fst it)) (snd it)) f7_items.
+Proof.
+  repeat apply Forall_cons; [| | | |apply Forall_nil]; cbn [item_act fst snd].
+  - apply (ww_single _ _ _ _ _ _ _ _ _ f7_j1 (mk_place (Some 1) 1 [SWindow 0 None]) 0%nat); try reflexivity.
+    + solve_placed.
+    + left. split; reflexivity.
+  - apply (ww_vehicle _ _ _ _ _ _ _ _ _ "reload" [f7_rl] f7_rl (mk_place (Some 0) 5 [SWindow 0 None]) 0%nat); try reflexivity.
+    + cbn. auto.
+    + intros j s' Hj. destruct j as [|j]; [inversion Hj; reflexivity|destruct j; discriminate].
+    + intros j s' Hj. cbn in Hj. lia.
+    + solve_placed.
+    + left. split; reflexivity.
+  - apply (ww_single _ _ _ _ _ _ _ _ _ f7_j2 (mk_place (Some 2) 1 [SWindow 0 (Some 46)]) 0%nat); try reflexivity.
+    + solve_placed.
+    + left. split; reflexivity.
+  - apply (ww_vehicle _ _ _ _ _ _ _ _ _ "break" [f7_br] f7_br (mk_place None 2 [SOffset 45 50]) 0%nat); try reflexivity.
+    + cbn. auto.
+    + intros j s' Hj. destruct j as [|j]; [inversion Hj; reflexivity|destruct j; discriminate].
+    + intros j s' Hj. cbn in Hj. lia.
+    + solve_placed.
+    + left. split; reflexivity.
+Qed.
+
+Lemma tag_after_reload_refuted :
+  exists ix actors all_jobs t,
+    Forall (fun it => well_written ix (st_vid t) (st_shift t) (st_start t) (st_start t) (st_start t)
+                                   (item_act it) (snd (fst it)) (snd it)) (st_items t) /\
+    NoDup (single_keys ix (st_items t)) /\ terminals (st_pre t) /\ terminals (st_post t) /\
+    doc_route_start (st_start t) (st_start_loc t) (st_acts t) = st_start t /\
+    (exists a, In a (st_acts t) /\ is_reload a = true) /\
+    read_init ix actors all_jobs [doc_tour t] [] = RErr ECannotMatchVehicle.
+Proof.
+  exists f7_ix, bd_actors, ["job1"; "job2"; "v1_reload_0_1"; "v1_break_0_1"], f7_tour.
+  split; [exact f7_well_written|]. split; [vm_compute; repeat constructor; cbn; intuition discriminate|].
+  split; [apply terminals_dep|]. split; [apply terminals_arr|].
+  split; [vm_compute; reflexivity|]. split; [exists f7_a2; split; [cbn; auto|reflexivity]|]. vm_compute. reflexivity.
+Qed.
+
+(* ---- the round trip of a whole document ---- *)
+Lemma init_roundtrip ix actors all_jobs tours us (U : list string) :
+  Forall (stour_ok ix actors) tours ->
+  NoDup (single_keys ix (all_items tours)) ->
+  Forall (fun k => lookup ix k <> None) us ->
+  (forall k, In k all_jobs <-> In k (tour_keys (all_items tours)) \/ In k U) ->
+  (forall k, In k U -> ~ In k (tour_keys (all_items tours))) ->
+  incl us U ->
+  exists un, read_init ix actors all_jobs (map doc_tour tours) (map (fun k => (k, true)) us) = ROk (map expected_route tours) un
+             /\ forall k, In k un <-> In k U.
+Proof.
+  intros Hok Hnd Hus Hall Hdisj Hincl.
+  pose proof (read_init_written ix actors all_jobs tours us Hok Hnd Hus) as E.
+  eexists. split; [exact E|].
+  destruct (read_init_same_unassigned ix actors all_jobs tours us _ _ U E Hok Hnd Hus Hall Hdisj Hincl) as (_ & H). exact H.
+Qed.
+
+(* a tour without reload in which no job is merged into the departure stop: writer and reader use the tour's departure *)
+Lemma tour_ok_plain ix vid shift start : forall items prev,
+  (forall it, In it items -> is_reload (item_act it) = false) ->
+  Forall (fun it => well_written ix vid shift start start start (item_act it) (snd (fst it)) (snd it)) items ->
+  tour_ok ix vid shift start start start prev items.
+Proof.
+  induction items as [|[[a i] sp] items IH]; intros prev Hnr Hww; [apply tok_nil|].
+  inversion Hww as [|x l Hw Hrest]; subst. cbn [item_act fst snd] in Hw.
+  pose proof (Hnr (a, i, sp) (or_introl eq_refl)) as Hr. cbn [item_act fst] in Hr.
+  apply tok_cons; rewrite Hr; [exact Hw|]. apply IH; [|exact Hrest]. intros it Hit. apply Hnr. right. exact Hit.
+Qed.
+
+Lemma stour_ok_plain ix actors t :
+  existsb (actor_eqb (st_vid t, st_type t, st_shift t)) actors = true ->
+  terminals (st_pre t) -> terminals (st_post t) ->
+  (forall a, In a (st_acts t) -> is_reload a = false) ->
+  doc_route_start (st_start t) (st_start_loc t) (st_acts t) = st_start t ->
+  Forall (fun it => well_written ix (st_vid t) (st_shift t) (st_start t) (st_start t) (st_start t)
+                                 (item_act it) (snd (fst it)) (snd it)) (st_items t) ->
+  stour_ok ix actors t.
+Proof.
+  intros Ha Hpre Hpost Hnr Hds Hww. split; [exact Ha|]. split; [exact Hpre|]. split; [exact Hpost|].
+  rewrite Hds. apply tour_ok_plain; [|exact Hww]. intros it Hit. apply Hnr. unfold st_acts. apply in_map. exact Hit.
+Qed.
+
+(* nothing is merged into the departure stop when the first job activity is elsewhere (or there is none) *)
+Lemma doc_route_start_first_elsewhere start start_loc a rest :
+  sa_loc a <> start_loc -> doc_route_start start start_loc (a :: rest) = start.
+Proof. intros H. cbn. destruct (Z.eqb_spec (sa_loc a) start_loc); [contradiction|reflexivity]. Qed.
+
+Lemma window_spans_ignore_start : forall s b st1 st2 loc w tm jid tag,
+  no_offsets s = true ->
+  get_job_tag s loc w st1 = get_job_tag s loc w st2 /\
+  match_place s b (mk_actx st1 loc tm jid tag) = match_place s b (mk_actx st2 loc tm jid tag).
+Proof.
+  intros s b st1 st2 loc w tm jid tag H.
+  split; [exact (get_job_tag_start_irrel s loc w st1 st2 H)|exact (match_place_start_irrel s b st1 st2 loc tm jid tag H)].
+Qed.
+
+Lemma candidate_told_apart : forall s b c,
+  same_tags (get_job_tag s (c_loc c) (act_win c) (c_start c)) (c_tag c) = false \/
+  (forall p, In p (s_places s) -> accepts p (c_loc c) (c_start c) (act_win c) = false) ->
+  match_place s b c = None.
+Proof. intros s b c [H|H]; [exact (match_place_other_tag_any s b c H)|exact (match_place_no_place s b c H)]. Qed.
